@@ -2,6 +2,8 @@
 //! entry, instantiating the production-generated function with simulated inputs (`in0..`) and
 //! recording outputs (`out0..`).
 
+pub type ExecFn = fn(&crate::io::Plan, &mut dyn crate::io::NetSched) -> crate::io::Exec;
+
 /// Glue for a single-location flow: inputs `in0..`, outputs `out0..`.
 #[macro_export]
 macro_rules! exec_local {
@@ -162,3 +164,6 @@ exec_local!(x_q_resp_22, q_resp_22, [in0: (i32, Result<i32, i32>)], [out0, out1]
 exec_local!(x_q_resp_23, q_resp_23, [in0: (i32, Result<i32, i32>)], [out0, out1]);
 exec_local!(x_q_resp_13, q_resp_13, [in0: (i32, Result<i32, i32>)], [out0, out1]);
 exec_local!(x_q_unord_23, q_unord_23, [in0: (i32, Result<i32, i32>)], [out0, out1]);
+
+// composer-generated flows (names cmp_00.., table COMPOSED)
+include!(concat!(env!("OUT_DIR"), "/composed_glue.rs"));
